@@ -667,6 +667,43 @@ class Ctx:
                 hits.append(dict(owner=c2, t=t, blk=b_, form=form, source=src))
         return hits
 
+    def collection_form(self, body, operand):
+        """How the collection held by `operand` was built from another one, whichever way it is
+        written: dict(form='adapter', source=…, element=…, chain=[adapter names]) for
+        `src.iter().map(f).collect()`, dict(form='loop', …) for `let mut v = Vec::new(); for x in
+        src { v.push(g(x)) }`; None when it is neither."""
+        e = self.expr(body, operand)
+        m = re.search(r"Iterator(?:>)?::collect\((.*)\)", e)
+        if m:
+            chain = re.findall(r"Iterator(?:>)?::(\w+)\(", m.group(1))
+            return dict(form="adapter", source=m.group(1), element=m.group(1), chain=chain)
+        if operand.get("k") not in ("copy", "move") or operand["p"]["proj"]:
+            return None
+        root = operand["p"]["local"]
+        for _ in range(6):
+            ds = [d for d in body.defs().get(root, []) if not body.is_cleanup(d[0])]
+            if len(ds) == 1 and ds[0][2] == "assign" and ds[0][3]["r"]["k"] == "use" and ds[0][3]["r"]["op"]["k"] in ("copy", "move") and not ds[0][3]["r"]["op"]["p"]["proj"]:
+                root = ds[0][3]["r"]["op"]["p"]["local"]
+                continue
+            break
+        hits = []
+        for h in self.per_element(body, r"Vec::<.*>::push$"):
+            if h["form"] != "loop" or h["owner"] is not body:
+                continue
+            a0 = h["t"]["args"][0]
+            l0 = a0["p"]["local"] if a0["k"] in ("copy", "move") else None
+            # `&mut v` taken just before the call
+            for d in body.defs().get(l0, []):
+                if d[2] == "assign" and d[3]["r"]["k"] == "ref" and not d[3]["r"]["p"]["proj"]:
+                    l0 = d[3]["r"]["p"]["local"]
+            if l0 == root:
+                hits.append(h)
+        if len(hits) == 1:
+            h = hits[0]
+            rev = bool(self.find_calls(body, r"::rev$|::next_back$"))
+            return dict(form="loop", source=h["source"], element=self.expr(body, h["t"]["args"][1]), chain=["rev"] if rev else [], blk=h["blk"])
+        return None
+
     def _closures_deep(self, body):
         out = []
         for c in self.closures_of(body):
